@@ -45,6 +45,14 @@ checks.update({
  "C12": ("model_checking", "bounded-exhaustive enumeration of class expressions (operator nesting depth, operand menu) and of every spelling over the class syntax alphabet, against the ES2025 set semantics",
          "Class expressions built from 17 operand kinds with union / && / -- and negation to nesting depth 1 (2 thorough) under v and iv, legacy brackets with Annex B forms under \"\", i, u, iu, and every string '[' + s (|s| <= 6, 7 thorough) over the class syntax alphabet that parses as one class: /^E$/ and /E/ are matched against every string of length <= 2 over a 17-character universe and compared with CompileToCharSet / CharacterSetMatcher / ClassStrings as transcribed from the specification.", "4 C12"),
 })
+checks.update({
+ "C06": ("exploration", "bounded-exhaustive exploration with invariant monitors (debug assertions, checked indexing, range validity) in three build variants whose per-pattern result digests must coincide",
+         "Every AST of seven profiles x haystacks over all four UTF-8 sequence lengths (every adjacency, empty, both ends) x every start the API accepts x every entry point x opt/no_opt is run in the default release build, in a debug-assertions + overflow-checks build (every debug_assert on positions / indices becomes a per-step invariant) and in an index-positions + prohibit-unsafe build (any out-of-range access panics): no panic, every reported range within the haystack and on char boundaries, and identical results in all three builds. The u16 entry points are covered by C14 (built with debug assertions).", "4 C06"),
+ "C14": ("model_checking", "bounded-exhaustive differential exploration of the UTF-16 / UCS-2 entry points against the UTF-8 entry point, plus exhaustive enumeration of raw u16 slices with lone surrogates",
+         "Built with the utf16 feature and debug assertions: every AST of six profiles x every string over {a, e-acute, euro, U+1F600, LF} up to length 3 (4 thorough) x every start: find_from_utf16 on the UTF-16 encoding (offsets mapped back) equals find_from, find_from_ucs2 likewise on BMP-only text; a sample of those patterns plus surrogate-specific ones x every u16 slice over {0061, D83D, DE00, DC00, 20AC} up to length 4 (5) x every start x both entry points: terminates under fuel, no panic, ranges within the slice.", "4 C14"),
+ "C15": ("model_checking", "configuration enumeration: six feature sets x one exhaustive case set, per-pattern result digests compared with the default build",
+         "default, index-positions, prohibit-unsafe, index-positions+prohibit-unsafe, utf16 and no-std+alloc builds of the runner each replay the same enumerated case set (the C06 space plus every member of a non-trivial case-folding class as literal and bracket under i / iu) through the string APIs and emit a digest per pattern (compiled-or-error, all match ranges and captures); any difference from the default build is a violation and is located with mc c15-dump.", "4 C15"),
+})
 not_applicable = {
 }
 PENDING = "check not built yet in this round (planned in DESIGN.md section 10); nothing is claimed for it until it exists"
